@@ -352,7 +352,7 @@ func policyTypeName(kind string) string {
 // (kind, considerRA) given the response (status, rendered header values hv with descriptions hs and
 // instants ds); [t0,t1] brackets the computation. Returns the effect class ("" = fine) and the
 // precondition class.
-func judgeWait(r *vrun.Run, kind string, considerRA bool, min, max, n, w int64, respNil bool, status int, hs []hdrDesc, ds []time.Time, t0, t1 time.Time) (effect, pre, rangeClass string) {
+func judgeWait(r *vrun.Run, kind string, considerRA bool, min, max, n, w int64, respNil bool, status int, hs []hdrDesc, ds []time.Time, t0, t1 time.Time) (effect, pre string, extra map[string]string) {
 	noHint := func() string { return noHintVerdict(r, kind, min, max, n, w) }
 	hinted := !respNil && (status == http.StatusTooManyRequests || status == http.StatusServiceUnavailable) && len(hs) > 0
 	// a negative wait of the linear policy whose bounds (n+1)*max are not representable is its own class
@@ -380,9 +380,9 @@ func judgeWait(r *vrun.Run, kind string, considerRA bool, min, max, n, w int64, 
 			hot("apply_hint_ignored_on_other_status")
 		}
 		if eff == "negative-wait" && linearUnrepresentable {
-			rangeClass = "linear-bounds-not-representable"
+			extra = map[string]string{"range": "linear-bounds-not-representable"}
 		}
-		return eff, pre, rangeClass
+		return eff, pre, extra
 	}
 	// hinted and enabled: acceptable if it is acceptable for any of the (possibly repeated) values
 	firstEffect := ""
@@ -395,7 +395,7 @@ func judgeWait(r *vrun.Run, kind string, considerRA bool, min, max, n, w int64, 
 					hot("apply_hint_date_bracket_checks")
 				}
 			}
-			return "", "", ""
+			return "", "", nil
 		}
 		if firstEffect == "" {
 			firstEffect = eff
@@ -407,12 +407,17 @@ func judgeWait(r *vrun.Run, kind string, considerRA bool, min, max, n, w int64, 
 			default:
 				if eff == "negative-wait" && linearUnrepresentable {
 					pre = "no-usable-retry-after"
-					rangeClass = "linear-bounds-not-representable"
+					extra = map[string]string{"range": "linear-bounds-not-representable"}
 				}
+			}
+			// a date that was still in the future when the call started and in the past when it
+			// returned: the negative wait comes from reading the clock twice
+			if eff == "negative-wait" && h.isDate() && ds[i].After(t0) && !ds[i].After(t1) {
+				extra = map[string]string{"race": "date-passed-during-call"}
 			}
 		}
 	}
-	return firstEffect, pre, rangeClass
+	return firstEffect, pre, extra
 }
 
 // runApplyCase evaluates one case on its list of attempt numbers. collect (optional) receives the
@@ -473,14 +478,14 @@ func runApplyCase(r *vrun.Run, c applyCase, evals *int64) {
 			r.Violation(vrun.Sig{"part": "apply", "ep": ep, "pre": "any", "effect": "panic"}, fmt.Sprintf("%s panicked: %v", ep, panicked), wit())
 			continue
 		}
-		effect, pre, rangeClass := judgeWait(r, c.Kind, c.ConsiderRA, c.MinNs, c.MaxNs, n, int64(w), c.Resp.Nil, c.Resp.Status, c.Resp.Headers, ds, t0, t1)
+		effect, pre, extra := judgeWait(r, c.Kind, c.ConsiderRA, c.MinNs, c.MaxNs, n, int64(w), c.Resp.Nil, c.Resp.Status, c.Resp.Headers, ds, t0, t1)
 		if effect != "" {
 			if (pre == "retry-after-disabled" || pre == "status-not-429-503") && len(c.Resp.Headers) > 0 && equalsIntHint(c.Resp.Headers[0], int64(w)) {
 				effect = "hint-honoured-unexpectedly/" + effect
 			}
 			sg := vrun.Sig{"part": "apply", "ep": ep, "pre": pre, "effect": effect}
-			if rangeClass != "" {
-				sg["range"] = rangeClass
+			for k, v := range extra {
+				sg[k] = v
 			}
 			r.Violation(sg,
 				fmt.Sprintf("%s(min=%v, max=%v, n=%d, resp=%s) = %v (%d ns) [route %s, ConsiderRetryAfter=%v]", ep, time.Duration(c.MinNs), time.Duration(c.MaxNs), n, respText(c.Resp, hv), time.Duration(w), int64(w), c.Route, c.ConsiderRA), wit())
@@ -619,7 +624,7 @@ func buildApplyCases(r *vrun.Run) []applyCase {
 			pairs = append(pairs, pair{a, b})
 		}
 	}
-	nRandPairs := r.Pick(1000, 6000)
+	nRandPairs := r.Pick(500, 6000)
 	rng := r.Rand("c14-apply-pairs", 0)
 	for i := 0; i < nRandPairs; i++ {
 		a := logUniformDuration(rng, 3.6e14)
@@ -694,7 +699,63 @@ func buildApplyCases(r *vrun.Run) []applyCase {
 	return cases
 }
 
+// runDateCrossing: a Retry-After date a few milliseconds ahead (RFC 3339 with nanoseconds, the only
+// accepted syntax finer than a second) while Apply is called a fixed number of times, so that the
+// date passes during the series. Every call is judged as usual (bracket oracle, never negative).
+func runDateCrossing(r *vrun.Run) {
+	trials := r.Pick(1500, 20000)
+	const callsPerTrial = 4000
+	routes := []string{"struct", "ctor", "factory", "client"}
+	vrun.Parallel(trials, 0, func(i int) {
+		c := applyCase{Kind: kinds[i%3], ConsiderRA: true, Route: routes[i%4], MinNs: 1000, MaxNs: 2000,
+			Resp: respDesc{Status: []int{429, 503}[i%2], Headers: []hdrDesc{{Class: "other-date", Format: "rfc3339nano", Offset: i64p(0)}}}, NList: "crossing"}
+		f := applyFor(c)
+		ep := policyTypeName(c.Kind)
+		d := time.Now().Add(2 * time.Millisecond).UTC().Round(0)
+		hv := d.Format(time.RFC3339Nano)
+		resp := &http.Response{StatusCode: c.Resp.Status, Header: http.Header{"Retry-After": []string{hv}}}
+		crossed := false
+		var firstBefore bool
+		for k := 0; k < callsPerTrial; k++ {
+			t0 := time.Now()
+			w, panicked := callApply(f, time.Duration(c.MinNs), time.Duration(c.MaxNs), k%8, resp)
+			t1 := time.Now()
+			if k == 0 {
+				firstBefore = d.After(t0)
+			}
+			if panicked != nil {
+				r.Violation(vrun.Sig{"part": "apply", "ep": ep, "pre": "any", "effect": "panic"}, fmt.Sprintf("%s panicked: %v", ep, panicked), witness{Part: "apply", Apply: &c})
+				break
+			}
+			if t1.Round(0).Before(t0.Round(0)) {
+				r.Inconclusive("wall clock stepped backwards during an Apply call with a date-valued Retry-After")
+				continue
+			}
+			effect, pre, extra := judgeWait(r, c.Kind, true, c.MinNs, c.MaxNs, int64(k%8), int64(w), false, c.Resp.Status, c.Resp.Headers, []time.Time{d}, t0, t1)
+			if effect != "" {
+				sg := vrun.Sig{"part": "apply", "ep": ep, "pre": pre, "effect": effect}
+				for k, v := range extra {
+					sg[k] = v
+				}
+				kk := int64(k % 8)
+				r.Violation(sg, fmt.Sprintf("%s(min=1µs,max=2µs,n=%d, resp={%d Retry-After:%q}) = %v: the date was %v ahead when the call started and %v behind when it returned",
+					ep, kk, c.Resp.Status, hv, w, d.Sub(t0), t1.Sub(d)),
+					witness{Part: "apply", Apply: &c, N: &kk, Detail: map[string]any{"returned_ns": int64(w), "header_values": []string{hv}, "date_minus_t0_ns": int64(d.Sub(t0)), "t1_minus_date_ns": int64(t1.Sub(d))}})
+			}
+			if firstBefore && !d.After(t1) {
+				crossed = true
+			}
+		}
+		if crossed {
+			hot("apply_date_passed_during_series")
+		}
+		r.Obs("apply_evaluations", callsPerTrial)
+		r.CaseN(fmt.Sprintf("apply-date-crossing:%s/%s/%d", c.Kind, c.Route, c.Resp.Status), true, callsPerTrial)
+	})
+}
+
 func runApply(r *vrun.Run) {
+	defer runDateCrossing(r)
 	cases := buildApplyCases(r)
 	r.Obs("apply_cases_built", int64(len(cases)))
 	vrun.Parallel(len(cases), 0, func(i int) {
